@@ -280,13 +280,13 @@ PROPS['C10'] = dict(
 
 PROPS['C05'] = dict(
     level='other',
-    claim='per-component truthfulness clauses: a collected process outcome becomes DONE iff exit code 0 and FAILED (with exit code) otherwise (Popen._check_running); a launch error fails that task only and releases it (Popen.work); raptor results: DONE iff exit code 0, every result handed on once even if the user callback raises (Master._result_cb); FAILED / CANCELED advances on agent and client side set the target state, are published and never pushed (AgentComponent.advance / ClientComponent.advance): all obligations discharged',
-    note='global liveness ("reaches exactly one final state while the pilot is alive") and the delivery order of messages are outside this family; BaseComponent.work_cb / _work_loop (error containment of a whole work routine), the stagers and tmgr staging_output are not yet under contract',
+    claim='per-component truthfulness clauses: a collected process outcome becomes DONE iff exit code 0 and FAILED (with exit code) otherwise (Popen._check_running); a launch error fails that task only and releases it (Popen.work); raptor results: DONE iff exit code 0, every result handed on once even if the user callback raises (Master._result_cb); FAILED / CANCELED advances on agent and client side set the target state, are published and never pushed (AgentComponent.advance / ClientComponent.advance); a work routine that raises fails the things of its own bulk only and does not take the component down (BaseComponent.work_cb, dispatch loop): all obligations discharged',
+    note='global liveness ("reaches exactly one final state while the pilot is alive") and the delivery order of messages are outside this family; the cancel filter inside work_cb is excluded by precondition (empty cancel list; is_canceled is under contract separately); tmgr staging_output advances a staged task twice (same state; not part of the property)',
     assumptions=['A2', 'A4', 'A5', 'A7', 'A9', 'A11'],
     explanation='outcome -> state mappings per function',
     clauses={'DONE only if exit code 0; FAILED with exit code otherwise': 'P',
              'launch error -> FAILED for that task only': 'P (assumed _handle_task contract)',
              'FAILED/CANCELED handed back published, not pushed': 'P',
              'CANCELED only if cancellation or timeout requested': 'partly (cancel sites under contract: is_canceled, cancel_task)',
-             'work routine failure contained (work_cb)': 'not yet built',
+             'work routine failure contained (work_cb): the failing bulk is failed with the exception recorded, published, not pushed; nothing escapes': 'P',
              'reaches exactly one final state (liveness)': 'N'})
